@@ -139,6 +139,8 @@ type server struct {
 	timeoutConfig       ServerTimeoutConfig
 	upgrader            websocket.Upgrader
 	errC                chan error
+	errDone             chan struct{} // closed by Stop before errC is: releases error(), which may be waiting for a reader
+	errMutex            sync.RWMutex  // guards errC and errDone: Stop closes the channel that error() sends on
 	connMutex           sync.RWMutex
 	addr                *net.TCPAddr
 	addrMutex           sync.RWMutex
@@ -231,16 +233,41 @@ func (s *server) SetCheckOriginHandler(handler func(r *http.Request) bool) {
 
 func (s *server) error(err error) {
 	log.Error(err)
+	s.errMutex.RLock()
+	defer s.errMutex.RUnlock()
 	if s.errC != nil {
-		s.errC <- err
+		select {
+		case s.errC <- err:
+		case <-s.errDone:
+		}
 	}
 }
 
 func (s *server) Errors() <-chan error {
+	s.errMutex.Lock()
+	defer s.errMutex.Unlock()
 	if s.errC == nil {
 		s.errC = make(chan error, 1)
+		s.errDone = make(chan struct{})
 	}
 	return s.errC
+}
+
+// closeErrors closes the error channel. Goroutines of the library may be reporting an error at this
+// very moment: error() must never find the channel closed.
+func (s *server) closeErrors() {
+	s.errMutex.RLock()
+	done := s.errDone
+	s.errMutex.RUnlock()
+	if done == nil {
+		return
+	}
+	close(done) // whoever waits in error() for a reader gives up
+	s.errMutex.Lock()
+	close(s.errC)
+	s.errC = nil
+	s.errDone = nil
+	s.errMutex.Unlock()
 }
 
 func (s *server) Addr() *net.TCPAddr {
@@ -302,10 +329,7 @@ func (s *server) Stop() {
 		s.error(fmt.Errorf("shutdown failed: %w", err))
 	}
 
-	if s.errC != nil {
-		close(s.errC)
-		s.errC = nil
-	}
+	s.closeErrors()
 }
 
 func (s *server) StopConnection(id string, closeError websocket.CloseError) error {
